@@ -15,7 +15,7 @@ def sh(cmd, cwd=None, env=None, timeout=3600):
     return p.returncode, p.stdout + p.stderr
 
 
-CROSS = {"C06-2": "C07", "C10-2": "C04", "C16-2": "C05", "C11-1": "C04", "C10-3": "C04", "C07-4": "C08", "C02-3": "C18", "C05-3": "C16", "C06-4": "C03", "C11-4": "C04", "C08-3": "C19", "C10-4": "C04"}  # seeds whose effect lies in another check's domain
+CROSS = {"C06-2": "C07", "C10-2": "C04", "C16-2": "C05", "C11-1": "C04", "C10-3": "C04", "C07-4": "C08", "C02-3": "C18", "C05-3": "C16", "C06-4": "C03", "C11-4": "C04", "C08-3": "C19", "C10-4": "C04", "C02-1": "C08", "C03-5": "C06"}  # seeds whose effect lies in another check's domain
 
 
 def main(only=None):
